@@ -5,7 +5,13 @@ from common import *
 import vm_corr, vm_checks, progs
 
 PROP_MODULE = "NeverModel.Props.C07"
-REQUIRED = ["Never.C07.verified_table_wellformed", "Never.C07.verified_every_fault_has_handler", "Never.C07.verified_nonempty", "Never.C07.simple_effect_sound_arith", "Never.C07.simple_effect_sound", "Never.C07.verified_flow", "Never.C07.verified_step_keeps_height", "Never.C07.verified_branch_keeps_height"]
+REQUIRED = ["Never.C07.verified_table_wellformed", "Never.C07.verified_every_fault_has_handler", "Never.C07.verified_nonempty", "Never.C07.simple_effect_sound_arith", "Never.C07.simple_effect_sound", "Never.C07.verified_flow", "Never.C07.verified_step_keeps_height", "Never.C07.verified_branch_keeps_height",
+            "Never.C07.verified_frame_heights", "Never.C07.verified_mark_step", "Never.C07.verified_slide_step", "Never.C07.verified_clear_stack_step",
+            "Never.C07.verified_data_step", "Never.C07.verified_local_in_frame", "Never.C07.frame_slot_is_read",
+            "Never.C07.verified_step_in_activation", "Never.C07.verified_run_in_activation", "Never.C07.verified_run_fn_in_activation",
+            "Never.C07.stack_size_invariant", "Never.C07.verified_call_step", "Never.C07.verified_ret_step", "Never.C07.mark_pushes_record",
+            "Never.C07.verify_sound_partial", "Never.C07.verified_marked_call_returns", "Never.C07.verify_sound_from_start_partial", "Never.C07.frame_words_kept",
+            "Never.C07.effect_table_write_footprint", "Never.C07.verified_step_keeps_callers_frames", "Never.C07.verify_sound_pending_partial"]
 
 def verify_dump(path):
     """-> (verdict line, {address: (height, nparams)} for the addresses inside function bodies)"""
@@ -42,8 +48,19 @@ def height_check(trace_path, hs, limit=60000):
         pass
     return n, None
 
+REPLAY = dict(tier="quick", seed=1)
+def replay_side(j):
+    """which runs are replayed on M-VM for the side-condition check: all in the thorough tier; in the quick tier the family programs
+    and half of the samples (which half depends on the seed), to stay inside the time budget"""
+    if REPLAY["tier"] != "quick" or not j["name"].startswith("sample"):
+        return True
+    import zlib
+    return (zlib.crc32(j["name"].encode()) + REPLAY["seed"]) % 2 == 0
+
 def check(tier, seed):
     rep = Report("C07", tier, seed, "translation_validation")
+    REPLAY.update(tier=tier, seed=int(seed) if str(seed).isdigit() else 1)
+    os.environ["NMDRV_STEPOK"] = "1"   # `nmdrv vm` follows the live frame records and checks `stepOkB` on every replayed step
     run([sys.executable, os.path.join(VERIF, "gen", "opcodes.py")])
     proof_stage(rep, PROP_MODULE, required=REQUIRED)
     h = vm_corr.VmHarness()
@@ -63,13 +80,38 @@ def check(tier, seed):
         hn, hbad = height_check(r["trace"], hs) if out.startswith("ok") else (0, None)
         err = r["err"]
         kind = vm_corr.impl_outcome(r)["kind"]
+        # side conditions of `verify_sound_partial` (StepOk: arity of the function value at CALL, frame words of live records not
+        # overwritten, MK_INIT_ARRAY finds the recorded constants), checked by the model on every replayed step of this run
+        side = None
+        if out.startswith("ok") and replay_side(j) and kind.startswith(("return", "exit")):
+            try:
+                ml, _ = h.model(r, timeout=120)
+                side = next((l for l in ml if l.startswith("stepok ")), None)
+                # a CALL into an FFI stub is outside M-VM (the model stops with `crash ffi` at the stub): that one step is not judged
+                if side and any(l.startswith("stop crash ffi") for l in ml) and " fails=1 " in side and "op=Never.Opc.CALL" in side:
+                    side = "stepok-ffi " + side
+            except subprocess.TimeoutExpired:
+                side = None
         h.cleanup(r)
-        return j, out, err, kind, hn, hbad
+        return j, out, err, kind, hn, hbad, side
     with ThreadPoolExecutor(max_workers=14) as ex:
         res = list(ex.map(one, jobs))
     hsteps, hbads = 0, 0
-    for j, out, err, kind, hn, hbad in res:
+    side_steps, side_fail_progs, side_progs, side_ffi = 0, 0, 0, 0
+    for j, out, err, kind, hn, hbad, side in res:
         hsteps += hn
+        if side and side.startswith("stepok-ffi "):
+            side_ffi += 1
+        if side and side.startswith("stepok checked="):
+            w = dict(kv.split("=") for kv in side.split()[1:4])
+            side_progs += 1
+            side_steps += int(w["checked"])
+            if int(w["fails"]) > 0:
+                side_fail_progs += 1
+                if side_fail_progs <= 3:
+                    src = j.get("src") or open(j["file"]).read()
+                    rep.violation("c07_side_%s" % j["name"],
+                        "# a side condition of C07's soundness theorem (Props/C07 verify_sound_partial: StepOk) fails on this run of a verified module:\n# %s\n# (a CALL found a function value of another arity / a word of a live frame record was overwritten / MK_INIT_ARRAY extents are not the recorded constants)\n%s" % (side, src), True)
         if out == "nodump" or out == "":
             stats["not-compiled"] += 1
             if kind.startswith(("sanitizer", "signal", "assert", "crash")):
@@ -99,9 +141,10 @@ def check(tier, seed):
                 src = j.get("src") or open(j["file"]).read()
                 rep.violation("c07_%s" % j["name"], "# the code emitted for this accepted program is ill-formed (static check over all addresses, executed or not):\n# %s\n# replay: h_vm -e/-f <program> -D dump; nmdrv verify dump\n%s" % (out, src), True)
     h.close()
-    rep.cov.update(height_steps_cross_checked=hsteps, height_mismatch_programs=hbads, programs=stats["ok"] + stats["FAIL"], disagreements_checked=stats["FAIL"],
+    rep.cov.update(side_condition_steps_checked=side_steps, side_condition_programs=side_progs, side_condition_failing_programs=side_fail_progs, side_condition_skipped_ffi_call=side_ffi,
+                   height_steps_cross_checked=hsteps, height_mismatch_programs=hbads, programs=stats["ok"] + stats["FAIL"], disagreements_checked=stats["FAIL"],
                    samples=samples, statuses=stats, totals=agg,
-                   trusted_base=["Lean definition of `verify` (Model/Verify.lean) + its compiled driver", "module dump of h_vm.c (public structs) and the NEVER_VERIF function-table hook",
+                   trusted_base=["Lean definition of `verify` (Model/Verify.lean) + its compiled driver", "side conditions of verify_sound_partial (StepOk) are CHECKED on the replayed runs (stepOkB), not proved: arity of function values at CALL, frame words of live records not overwritten, MK_INIT_ARRAY constants", "module dump of h_vm.c (public structs) and the NEVER_VERIF function-table hook",
                                  "M-VM stack effects tied by lockstep traces (C01)"],
                    explanation="every module the real compiler emits for the samples, the seeded families and the C06 corpus is checked by the Lean verifier: jump targets follow a LABEL in the same function, function values point at function entries, string/build-in references exist, no placeholder, stack heights are a function of the address (joins agree), every instruction finds its operands, frame-relative addressing stays inside the function's own frame, every function returns with exactly its result, tail calls slide exactly (n+L, n+1), exception table and handler entries canonical")
     rep.assumptions = ["translation validation per emitted module: nothing is claimed about programs that were not compiled in this run",
